@@ -616,19 +616,22 @@ class P(Prop):
                 else:
                     if st["base"] is None or st["base"][0] != "G":
                         return "after %s Track.base is %r, expected the base as GeoCoords" % (opname, st["base"])
-                    if rec[1] == "first":
-                        want = truth[0] if (truth is not None and att) else None
-                    else:
-                        want = base_geo(rec[1])
+                    # a base passed explicitly must be the one recorded; without argument the code is free to pick
+                    # (it takes the first observation: model + correspondence), the round trip below ties it down
+                    want = None if (rec[1] == "first" or case["ops"][j][1] is None) else base_geo(rec[1])
                     if want is not None:
                         d = geo_diff(st["base"][1:], want)
                         if d:
                             return "after %s Track.base is %r but the base used is %r: %s" % (opname, st["base"], want, d)
-                    # the base picked when none is given is the first observation: its local coordinates are (0,0,0)
-                    if case["ops"][j][1] is None:
-                        d = m_diff(st["pts"][0], [0.0, 0.0, 0.0])
-                        if d:
-                            return "after %s without base the first observation has local coordinates %r" % (opname, st["pts"][0])
+                    # "the local coordinates of the base itself are (0,0,0)": when the recorded base is one of the
+                    # observations of the track, that observation must sit at the local origin
+                    if truth is not None and att:
+                        for i, t in enumerate(truth):
+                            if geo_diff(st["base"][1:], t) is None and all(abs(a - b) < 1e-12 for a, b in zip(st["base"][1:3], t[:2])):
+                                d = m_diff(st["pts"][i], [0.0, 0.0, 0.0])
+                                if d:
+                                    return "after %s Track.base is observation %d (%r) but its local coordinates are %r" % (
+                                        opname, i, st["base"], st["pts"][i])
             # --- positions
             if not att:
                 continue
